@@ -1,0 +1,24 @@
+//go:build verif
+
+package internal
+
+// Contracts for govc (see /verif/DESIGN.md).  Comment-only file.
+
+// ---------------------------------------------------------------------------
+// C12: the key of a cached filtering result is the digest of the host, the
+// question type, the class and the answer flag - all of them, in this order.
+//
+// ckHost / ckType / ckAns read the three components back from a key: they
+// exist because keys of different questions are assumed to be different
+// (64-bit digest collisions are not decided).
+//@ fun ckey(host string, qt int, cl int, ans bool) int
+//@ axiom key-is-the-digest-chain: forall h string, q int, c int, a bool :: ckey(h, q, c, a) == wrap(hsum(hmixB5(hmixS(hseed(hashSeed), h), q % 256, q / 256, c % 256, c / 256, a ? 1 : 0)), uint64)
+//@ fun ckHost(k int) string
+//@ fun ckType(k int) int
+//@ fun ckAns(k int) bool
+//@ axiom keys-of-different-questions-differ: forall h string, q int, a bool :: 0 <= q && q <= 65535 ==> ckHost(ckey(h, q, 1, a)) == h && ckType(ckey(h, q, 1, a)) == q && ckAns(ckey(h, q, 1, a)) == a
+
+//@ func NewCacheKey
+//@   property C12
+//@   modifies hst, ipBytes
+//@   ensures key-covers-host-type-class-and-answer-flag: k == ckey(host, qt, cl, isAns)
